@@ -18,7 +18,8 @@ says "any starting flux vector obtained from the same model" — feasible sub-op
 FVA vertex at fraction 0.5).  Expected, relative to s:                                              [key loopless_solution:*]
   status optimal (s itself meets every condition, so the documented problem is feasible)           [status | suboptimal-start]
   steady state, in bounds                                                                          [infeasible-flux]
-  c.v == c.s and objective_value == c.s                                       [objective | suboptimal-start | min-direction]
+  c.v == c.s and objective_value == c.s    [suboptimal-start if c.s is not the model optimum, else min-direction for a
+                                            minimisation model, else objective]
   boundary fluxes equal those of s                                                                 [boundary]
   no reaction reversed, none grown in magnitude                                                    [reversed | grown]
   no removable internal cycle                                                                      [cycle-left]
@@ -300,6 +301,10 @@ def build_cases(tier, seed):
     # two parallel routes that are both needed (ring capacity 1, import 2): potentials need |G| >= 3 > max |bound| = 2
     specs.append(dict(family="A", k=4, rev="FFFB", obj="EX_out", direction="max", small=2.0, j=3, U_ring=1.0))
     specs.append(dict(family="A", k=3, rev="FFB", obj="EX_out", direction="max", small=3.0, j=2, U_ring=2.0))
+    # witnesses of the known findings first, so that they are evaluated even when the time budget cuts the run short
+    n_tail = 4 * 7 + 2
+    specs = [dict(family="B", k=2, rev="RR", obj="C0", direction="min"),
+             dict(family="A", k=2, rev="FB", obj="EX_out", direction="max")] + specs[-n_tail:] + specs[:-n_tail]
     cases = []
     for sp in specs:
         m = ring_model(**sp)
@@ -393,10 +398,10 @@ def check_loopless_solution(case):
     info["c.result"] = cv
     if not oracle_lp.close(cv, cs) or not oracle_lp.close(sol.objective_value, cs):
         key = "loopless_solution:objective"
-        if d == "min":
-            key = "loopless_solution:min-direction"
-        elif suboptimal:
+        if suboptimal:
             key = "loopless_solution:suboptimal-start"
+        elif d == "min":
+            key = "loopless_solution:min-direction"
         fails.append((key, f"objective of the start c.s = {cs!r}, of the result c.v = {cv!r}, reported objective_value "
                            f"{sol.objective_value!r} (model optimum {float(opt)!r}, direction {d})"))
     if s is not None:
@@ -485,8 +490,6 @@ def run(tier: str, seed: int) -> dict:
     t0 = time.time()
     U.silence()
     cases = build_cases(tier, seed)
-    # expensive cases first for a balanced pool
-    cases.sort(key=lambda c: 0 if c["task"] == "add_loopless" else 1)
     t_gen = time.time() - t0
     deadline = (80 if tier == "quick" else 840) - t_gen
     results = U.run_pool(run_case, cases, deadline=max(10, deadline), chunksize=4)
